@@ -3,6 +3,9 @@
 package parser
 
 import (
+	"unicode"
+	"unicode/utf8"
+
 	"github.com/shopspring/decimal"
 
 	"github.com/juev/hledger-lsp/internal/ast"
@@ -11,8 +14,7 @@ import (
 
 // ---------------------------------------------------------------------------------------
 // Shared pieces of the C03 harnesses: leaves of grammar G (DESIGN §4.1/§4.2), the number
-// notations of §4.3, comments with tags, and the probes that key the known-finding classes
-// on what the real lexer does with the first token of a leaf.
+// notations of §4.3, comments with tags, and the input predicates of the known-finding classes.
 // ---------------------------------------------------------------------------------------
 
 // Non-ASCII representatives (DESIGN §4.1). Index 0..: é ж € 日 — 😀 𝒜
@@ -83,32 +85,15 @@ func c03TokAt(text string, off int) int {
 	return int(t.Type)
 }
 
-func c03TokName(t int) string {
-	if t < 0 {
-		return "None"
-	}
-	return TokenType(t).String()
-}
-
 // c03Ctx carries the cause suffix that is appended to assertion messages, so that
-// violations are grouped by what the real lexer did to a leaf (messages stay fixed strings).
+// violations are grouped by known-finding class (messages stay fixed strings).
 type c03Ctx struct{ cause string }
 
 func (c *c03Ctx) msg(m string) string { return m + c.cause }
 
-// knownTok: the leaf `leaf` (starting at byte off of text) is written to be lexed as a token
-// of type want. When the real lexer produces another token type there, the input belongs to
-// the class "c03-<leaf>-lexed-as-<Type>"; it returns true when that class is a listed known
-// finding (the caller then leaves the input out). Otherwise the assertions run as usual and
-// only their messages name the class.
-func (c *c03Ctx) knownTok(leaf, text string, off int, want TokenType) bool {
-	got := c03TokAt(text, off)
-	if got == int(want) {
-		return false
-	}
-	return c.knownClass("c03-" + leaf + "-lexed-as-" + c03TokName(got))
-}
-
+// knownClass: the input lies in class cls. It returns true when cls is a listed known finding
+// (the caller then leaves the input out); otherwise the assertions run as usual and only
+// their messages name the class.
 func (c *c03Ctx) knownClass(cls string) bool {
 	if zzverif.Known(cls) {
 		zzverif.Reach("kf:" + cls)
@@ -120,7 +105,233 @@ func (c *c03Ctx) knownClass(cls string) bool {
 	return false
 }
 
-// knownCRLF: CRLF line ends are one class of their own (the lexer leaves '\r' in the line).
+// ---------------------------------------------------------------------------------------
+// Known-finding classes of C03. Every class is the CONJUNCTION of
+//   (a) an input predicate: a function of the document text / the derivation only, and
+//   (b) the observation that the real lexer does not return the expected token for the leaf.
+// An input outside (a) on which the lexer misbehaves belongs to no class: the assertions run
+// and report it. An input inside (a) on which the lexer behaves is asserted as usual.
+// ---------------------------------------------------------------------------------------
+
+func c03IsDigit(b byte) bool  { return b >= '0' && b <= '9' }
+func c03IsUpper(b byte) bool  { return b >= 'A' && b <= 'Z' }
+func c03IsLetter(b byte) bool { return (b >= 'a' && b <= 'z') || (b >= 'A' && b <= 'Z') }
+
+// c03LetterAt: the character at off is a letter (ASCII or not).
+func c03LetterAt(text string, off int) bool {
+	if off >= len(text) {
+		return false
+	}
+	if b := text[off]; b < 0x80 {
+		return c03IsLetter(b)
+	}
+	r, _ := utf8.DecodeRuneInString(text[off:])
+	return unicode.IsLetter(r)
+}
+
+// c03CurrencyAt: the character at off is one of the currency signs $ € £ ¥ ₽ ₴.
+func c03CurrencyAt(text string, off int) bool {
+	if off >= len(text) {
+		return false
+	}
+	if b := text[off]; b < 0x80 {
+		return b == '$'
+	}
+	r, _ := utf8.DecodeRuneInString(text[off:])
+	return r == '€' || r == '£' || r == '¥' || r == '₽' || r == '₴'
+}
+
+// c03ColonAhead: a ':' occurs at or after off, before the next  ; @ = ( ) [ ]  tab, CR, line
+// end or run of two blanks (the look-ahead of lexer.go looksLikeAccount).
+func c03ColonAhead(text string, off int) bool {
+	for i := off; i < len(text); i++ {
+		switch text[i] {
+		case ':':
+			return true
+		case ' ':
+			if i+1 < len(text) && text[i+1] == ' ' {
+				return false
+			}
+		case '\t', '\n', '\r', ';', '@', '=', '(', ')', '[', ']':
+			return false
+		}
+	}
+	return false
+}
+
+// c03PrevIsDigit: the last non-blank character before off is a digit.
+func c03PrevIsDigit(text string, off int) bool {
+	p := off - 1
+	for p >= 0 && text[p] == ' ' {
+		p--
+	}
+	return p >= 0 && c03IsDigit(text[p])
+}
+
+// c03DigitOrSignedDigitAt: a digit, or a sign directly followed by a digit, stands at off.
+func c03DigitOrSignedDigitAt(text string, off int) bool {
+	if off >= len(text) {
+		return false
+	}
+	if c03IsDigit(text[off]) {
+		return true
+	}
+	return (text[off] == '-' || text[off] == '+') && off+1 < len(text) && c03IsDigit(text[off+1])
+}
+
+// c03UpperWordAt: the word at off reads like a commodity code — its leading run of ASCII
+// letters and digits consists of upper-case letters and digits only; or, when the word does
+// not directly follow a number, its leading upper-case letters are directly followed by a
+// digit or a signed digit (lexer.go scanCommodityOrText).
+func c03UpperWordAt(text string, off int) bool {
+	if off >= len(text) || !c03IsUpper(text[off]) {
+		return false
+	}
+	i := off
+	for i < len(text) && c03IsUpper(text[i]) {
+		i++
+	}
+	// text[off:i] upper-case letters; what follows?
+	if i < len(text) && c03IsLetter(text[i]) {
+		return false // a lower-case letter inside the leading letters
+	}
+	if !c03PrevIsDigit(text, off) && c03DigitOrSignedDigitAt(text, i) {
+		return true
+	}
+	for i < len(text) && (c03IsLetter(text[i]) || c03IsDigit(text[i])) {
+		if !c03IsUpper(text[i]) && !c03IsDigit(text[i]) {
+			return false
+		}
+		i++
+	}
+	return true
+}
+
+// c03SignedAt: a sign at off that is directly followed by a digit, a currency sign, or
+// letters that are directly followed by a digit or a signed digit (lexer.go scanInLine '-' '+').
+func c03SignedAt(text string, off int) bool {
+	if off+1 >= len(text) || (text[off] != '-' && text[off] != '+') {
+		return false
+	}
+	if c03IsDigit(text[off+1]) || c03CurrencyAt(text, off+1) {
+		return true
+	}
+	i := off + 1
+	for i < len(text) && c03IsLetter(text[i]) {
+		i++
+	}
+	return i > off+1 && c03DigitOrSignedDigitAt(text, i)
+}
+
+// c03TextLeafClass is the input predicate of the classes of a free-text leaf (description,
+// payee, note) that starts at off: the lexer's in-line scanner decides the token kind from
+// the first character(s) of the leaf, whatever the line context.
+func c03TextLeafClass(text string, off int) string {
+	b := text[off]
+	switch {
+	case c03IsDigit(b):
+		return "c03-desc-starts-with-digit"
+	case b == ')' || b == '[' || b == ']' || b == '@':
+		return "c03-desc-starts-with-bracket-or-at"
+	case b == '"' || c03CurrencyAt(text, off):
+		return "c03-desc-starts-with-currency-or-quote"
+	case b == '-' || b == '+':
+		if c03SignedAt(text, off) {
+			return "c03-desc-starts-with-sign"
+		}
+	case c03LetterAt(text, off):
+		if c03ColonAhead(text, off) {
+			return "c03-colon-ahead-lexed-as-account"
+		}
+		if c03UpperWordAt(text, off) {
+			return "c03-desc-upper-case-word"
+		}
+	}
+	return ""
+}
+
+// knownText: the free-text leaf at off must come out of the lexer as a Text token.
+func (c *c03Ctx) knownText(text string, off int) bool {
+	if c03TokAt(text, off) == int(TokenText) {
+		return false
+	}
+	if cls := c03TextLeafClass(text, off); cls != "" {
+		return c.knownClass(cls)
+	}
+	return false
+}
+
+// knownCode: "(code)" at off must come out as a Code token; a code that contains ':' is taken
+// for the opening parenthesis of a virtual account (lexer.go looksLikeVirtualAccount).
+func (c *c03Ctx) knownCode(text string, off int, code string) bool {
+	if c03TokAt(text, off) == int(TokenCode) {
+		return false
+	}
+	for i := 0; i < len(code); i++ {
+		if code[i] == ':' {
+			return c.knownClass("c03-code-contains-colon")
+		}
+	}
+	return false
+}
+
+// knownColonAhead: a word at off (commodity symbol, sub-directive keyword) that starts with a
+// letter comes out as an Account token because a ':' follows later on the line.
+func (c *c03Ctx) knownColonAhead(text string, off int) bool {
+	if c03TokAt(text, off) == int(TokenAccount) && c03LetterAt(text, off) && c03ColonAhead(text, off) {
+		return c.knownClass("c03-colon-ahead-lexed-as-account")
+	}
+	return false
+}
+
+// knownAcct: the account name acct at off. In a posting it must come out as one Account token;
+// the account directive also takes a Text token that holds the whole name. The lexer only
+// starts an account name at a letter.
+func (c *c03Ctx) knownAcct(text string, off int, acct string, directive bool) bool {
+	t, ok := c03TokenAt(text, off)
+	good := ok && t.Type == TokenAccount
+	if directive {
+		good = ok && (t.Type == TokenAccount || t.Type == TokenText) && len(t.Value) == len(acct)
+	}
+	if good {
+		return false
+	}
+	if !c03LetterAt(text, off) {
+		return c.knownClass("c03-acct-starts-with-non-letter")
+	}
+	return false
+}
+
+// knownSymbol: the commodity symbol sym written at off must come out as one Commodity token
+// (a symbol that starts with a lower-case letter: Text token) that holds exactly the symbol.
+func (c *c03Ctx) knownSymbol(text string, off int, sym c03Sym) bool {
+	t, ok := c03TokenAt(text, off)
+	lower := sym.text[0] >= 'a' && sym.text[0] <= 'z'
+	if ok && (t.Type == TokenCommodity || (t.Type == TokenText && lower)) && len(t.Value) == len(sym.sym) {
+		return false
+	}
+	if c.knownColonAhead(text, off) {
+		return true
+	}
+	end := off + len(sym.text)
+	if ok && t.Type == TokenCommodity && c03IsUpper(sym.text[0]) && end < len(text) && c03IsDigit(text[end]) && c03PrevIsDigit(text, off) {
+		// CODE directly followed by its number, directly after something that ends in a digit:
+		// the digits are taken into the symbol
+		return c.knownClass("c03-code-number-after-digit")
+	}
+	if ok && t.Type == TokenText && lower {
+		// a lower-case symbol is scanned as free text up to the next ';' '|' or line end
+		for i := end; i < len(text) && text[i] != '\n' && text[i] != ';' && text[i] != '|'; i++ {
+			if text[i] != ' ' && text[i] != '\r' {
+				return c.knownClass("c03-lower-symbol-not-last")
+			}
+		}
+	}
+	return false
+}
+
+// knownCRLF: CRLF line ends are one class of their own (the lexer does not know '\r'); its
+// predicate is the input alone: the document is written with CRLF line ends.
 func (c *c03Ctx) knownCRLF(eol string) bool {
 	if eol != "\r\n" {
 		return false
